@@ -10,6 +10,16 @@ BASE_NOTE = ('Trusted: Lean 4.33 kernel; axioms propext/Classical.choice/Quot.so
              'against the real code); floats idealised as exact rationals (deviation measured by the oracle pass).')
 
 CHECKS = {
+    'C07': dict(
+        text='Proof: the GENERATED generate_candle_from_one_minutes is the aggregation (window start, first open, last close, '
+             'max high, min low, summed volume) for every non-empty list; the GENERATED gap normalisation only moves the open '
+             'to the previous close and extends low/high; under the store invariant (complete windows + at most one partial '
+             'candle of the forming window) the model of get_candles / get_current_candle returns exactly one candle per '
+             'started window, the last one the aggregate of the forming window. Tie: translator + store correspondence; '
+             'oracle on real sessions reads every timeframe at every hook in both simulators.',
+        technique='Lean 4 theorems over generated aggregation + hand store model (window decomposition, invariant); correspondence; session oracle',
+        ref='4 (C07)',
+        note='That both simulators maintain the store invariant is checked by the session oracle, not yet by a theorem (evidence.unproved).'),
     'C08': dict(
         text='Proof over the definition of split_candle REGENERATED from the source on every run: it equals the cut of the '
              'continuous O-L-H-C / O-H-L-C path at the first visit of the price (full functional spec), hence valid parts, '
